@@ -49,6 +49,9 @@ def run_op(coal, op):
         x.plot_surface(show=False, fill_diagonal_entries=True)
         plt.close('all')
         return tolist(get_attr(coal, op['path']))
+    if k == 'call':
+        # a documented method of a (marginal) distribution called with positional arguments, e.g. sfs.demes[a].get_cov(1, 2)
+        return tolist(getattr(get_attr(coal, op['path']), op['method'])(*op.get('args', [])))
     dist = coal if op.get('route') == 'coal' else get_attr(coal, op.get('dist', 'tree_height'))
     rewards = None if op.get('rewards') is None else tuple(mk_reward(r) for r in op['rewards'])
     if k == 'moment':
@@ -66,7 +69,7 @@ def run_op(coal, op):
     if k == 'pdf':
         return tolist(coal.tree_height.pdf(np.array(op['ts'], dtype=float), dx=op.get('dx')))
     if k == 'quantile':
-        return float(coal.tree_height.quantile(op['q']))
+        return float(coal.tree_height.quantile(op['q'], **op.get('kw', {})))
     if k == 't_max':
         return float(coal.tree_height.t_max)
     raise ValueError(k)
